@@ -4,6 +4,7 @@ pub mod bounds;
 pub mod dynamic;
 pub mod encodings;
 pub mod independence;
+pub mod metamorphic;
 pub mod sat;
 pub mod static_eval;
 pub mod store_io;
@@ -22,6 +23,7 @@ pub fn run(ctx: &mut Ctx, prop: &str) -> bool {
         "C08" | "C09" => dynamic::run(ctx, prop),
         "C06" => independence::run(ctx),
         "C10" => encodings::run(ctx),
+        "C11" => metamorphic::run(ctx),
         "C18" => bounds::run_c18(ctx),
         "C19" => bounds::run_c19(ctx),
         "C15" => sat::run_c15(ctx),
@@ -45,6 +47,7 @@ pub fn replay(ctx: &mut Ctx, prop: &str, case: &Value, detail: &Value, signature
         "C08" | "C09" => dynamic::replay(ctx, prop, case),
         "C06" => independence::replay(ctx, case, detail, signature),
         "C10" => encodings::replay(ctx, case, detail),
+        "C11" => metamorphic::replay(ctx, case),
         "C18" => bounds::replay_c18(ctx, case, detail),
         "C19" => bounds::replay_c19(ctx, case),
         "C15" => sat::replay_c15(ctx, case),
